@@ -1240,4 +1240,95 @@ theorem members_eq_fold {cfg : Conf} (hdyn : cfg.dynMember = true) {base : List 
   | @restart base s s' m0 k o _ hg hm hstep ih =>
     exact journalFold_minv (s := { s with members := m0 }) ih.base_good hg ih.eff hm hstep
 
+/-! ## a newly added node is not counted for any position -/
+
+theorem Map.get?_put_self (m : Map) (k v : Nat) : (m.put k v).get? k = some v := by
+  simp [Map.put, Map.get?]
+
+theorem sendAllLoop_matchIndex (B : Nat) (snapOf : Nat → List (Option Bool)) (ds : List Nat) :
+    ∀ {s s' : Node} {budget b' : Option Nat} {o : List Out},
+      sendAllLoop B snapOf ds s budget = .ok (s', o, b') → s'.matchIndex = s.matchIndex := by
+  induction ds with
+  | nil => intro s s' budget b' o h; simp [sendAllLoop] at h; rw [← h.1]
+  | cons d ds ih =>
+    intro s s' budget b' o h
+    unfold sendAllLoop at h
+    split at h
+    · exact ih h
+    · split at h
+      · simp at h
+      · split at h
+        · simp at h
+        · simp only [] at h
+          split at h
+          · simp at h
+          · rename_i s2 o2 b2 hrec
+            simp at h
+            rw [← h.1, ih hrec]
+
+theorem doChange_add_matchIndex {s s' : Node} {n : Nat} {o : List Out}
+    (h : doChange s (.add n) false = .ok (s', true, o)) :
+    s'.matchIndex.get? n = some 0 ∧ ∃ last, lastIdx? s.log = some last ∧ s'.nextIndex.get? n = some (last + 1) := by
+  unfold doChange at h
+  simp only [changeDir, Bool.not_false] at h
+  split at h
+  · simp at h
+  · simp only [if_true] at h
+    cases hl : lastIdx? s.log with
+    | none => simp [hl] at h
+    | some last =>
+      simp [hl] at h
+      obtain ⟨h1, _⟩ := h
+      subst h1
+      exact ⟨Map.get?_put_self _ _ _, last, rfl, Map.get?_put_self _ _ _⟩
+
+/-- **A newly added node is not counted for any position.**  When the leader accepts `add x`
+(`dynamicMembershipChange` on), `x` enters with `matchIndex = 0` (and `nextIndex` = the index of the membership
+entry itself): it holds nothing as far as the commit rule is concerned until it acknowledges — the commit of the
+entries, the change included, needs a majority of the NEW configuration that really stores them. -/
+theorem added_node_not_counted {cfg : Conf} {s s' : Node} {cmd : Cmd} {cb : Cb} {o : List Out} {br : Branch} {x : Nat}
+    (h : leaderDispatch cfg s cmd cb = .ok (s', o, br)) (hdyn : cfg.dynMember = true) (hk : cmd.kind = .add x)
+    (hbr : br ≠ .denied) : s'.matchIndex.get? x = some 0 := by
+  unfold leaderDispatch at h
+  split at h
+  · simp at h
+  · rename_i last hl
+    unfold gateOf at h
+    simp only [hdyn, if_true, hk, parseChange] at h
+    cases hg : changeCluster s (.add x) with
+    | error e => simp [hg] at h
+    | ok res =>
+      obtain ⟨s1, acc, o1⟩ := res
+      cases acc with
+      | false => simp [hg] at h; exact absurd h.2.2.symm hbr
+      | true =>
+        simp only [hg] at h
+        -- the accepted request went through `doChange … (.add x) false` with result `true`
+        have hm1 : s1.matchIndex.get? x = some 0 := by
+          unfold changeCluster at hg
+          split at hg
+          · simp at hg
+          · split at hg
+            · simp at hg
+            · simp only [] at hg
+              split at hg
+              · simp at hg
+              · exact (doChange_add_matchIndex hg).1
+        have hacc : ∀ isReq, (leaderAccept s1 cmd cb (last + 1) s.term isReq).1.matchIndex = s1.matchIndex := by
+          intro isReq; cases cb <;> rfl
+        split at h
+        · simp at h
+          rw [← h.1, hacc]; exact hm1
+        · split at h
+          · simp at h
+          · rename_i s4 o4 hsa
+            simp at h
+            rw [← h.1]
+            unfold sendAll at hsa
+            split at hsa
+            · simp at hsa
+            · rename_i s5 o5 b5 hloop
+              simp at hsa
+              rw [← hsa.1, sendAllLoop_matchIndex _ _ _ hloop, hacc]; exact hm1
+
 end PSO.NodeSend
